@@ -157,8 +157,9 @@ class LiteralProvider(LoaderProvider, DumperProvider):
         self,
         basic_loader: Loader,
         enum_loaders: Sequence[Loader[Enum]],
-        allowed_values: Collection,
+        enum_cases: Sequence[Enum],
     ) -> Loader:
+        # an IntEnum member is equal to plain values (``Color.RED == 1 == True``), so membership is checked by identity
         if not enum_loaders:
             return basic_loader
 
@@ -171,7 +172,7 @@ class LiteralProvider(LoaderProvider, DumperProvider):
                 except LoadError:
                     pass
                 else:
-                    if enum_value in allowed_values:
+                    if any(enum_value is case for case in enum_cases):
                         return enum_value
                 return basic_loader(data)
 
@@ -184,7 +185,7 @@ class LiteralProvider(LoaderProvider, DumperProvider):
                 except LoadError:
                     pass
                 else:
-                    if enum_value in allowed_values:
+                    if any(enum_value is case for case in enum_cases):
                         return enum_value
             return basic_loader(data)
 
@@ -283,12 +284,13 @@ class LiteralProvider(LoaderProvider, DumperProvider):
         if bytes_cases and not enum_loaders:
             return self._get_literal_loader_with_bytes(literal_loader, allowed_values, bytes_loader)
 
+        enum_cases = tuple(arg for arg in cases if isinstance(arg, Enum))
         if not bytes_cases:
-            return self._get_literal_loader_with_enum(literal_loader, enum_loaders, allowed_values)
+            return self._get_literal_loader_with_enum(literal_loader, enum_loaders, enum_cases)
 
         return self._get_literal_loader_many(
             self._get_literal_loader_with_bytes(literal_loader, allowed_values, bytes_loader),
-            self._get_literal_loader_with_enum(literal_loader, enum_loaders, allowed_values),
+            self._get_literal_loader_with_enum(literal_loader, enum_loaders, enum_cases),
             basic_loader=literal_loader,
         )
 
